@@ -1386,6 +1386,10 @@ class Machine:
             return Iz(a) + Iz(b)
         if op == "sub":
             return Iz(a) - Iz(b)
+        if op == "and" and ty == "i8" and ((not is_sym(b) and b == 1) or (not is_sym(a) and a == 1)):
+            # a C++ bool read back from memory and masked to its low bit (the stored byte is 0 or 1 on every path that the
+            # front end generates; mod keeps the meaning for any byte)
+            return Iz(a if is_sym(a) else b) % 2
         raise Inconclusive(f"symbolic integer in {op}")
 
     def icmp(self, pred, ty, a, b):
